@@ -258,17 +258,17 @@ _p("C01", modules=["record_protection", "framing", "framing_unbounded", "framing
               "and MAC removed, only the own direction's state advances and an authentication failure leaves the state unchanged; TLS 1.3 inner plaintext (content || type || "
               "zeros -> content exported exactly for type 23); output (C06/C07).",
    level_note="level 'other': the induction over the record sequence of a direction - the receiver's cipher state follows the sender's and every application record is exported exactly, "
-              "in order, once - IS discharged for the AEAD classes (compose.application_phase: loop contract over any number of records with handle_tls_record, the handlers, "
-              "Decryptor.decrypt and decrypt_* executed from their real bodies, AEAD modelled as 'opens iff key, nonce, ciphertext and additional data are the sealed ones', frame "
-              "obligation on everything else); for the CBC and RC4 classes the same induction rests on the per-record contracts and stays a paper argument; the remaining composition "
+              "in order, once - IS discharged for every cipher class (compose.application_phase: TLS 1.2 / 1.3 AEADs; compose.application_phase_cbc_rc4: explicit-IV CBC, chained-IV CBC of "
+              "SSL 3.0 / TLS 1.0 with the residue invariant, RC4 with the keystream-position invariant): loop contracts over any number of records with handle_tls_record, the handlers, "
+              "Decryptor.decrypt and decrypt_* executed from their real bodies, the primitives modelled as 'returns the sealed plaintext iff key, nonce / IV / position, ciphertext "
+              "(and additional data) are the sender's', frame obligation on everything else; the remaining composition "
               "(handshake phase -> installed keys -> application phase -> output builder) links discharged contracts by their stated pre/postconditions (DESIGN 4 C01); "
               "AES/HMAC/etc. are uninterpreted; ClientHello parsing is a single slice (client random) and not separately contracted; compression (zlib) is not claimed",
    design_ref="DESIGN.md 4 C01",
    explanation="Every listed link is proved per function; what is not machine-checked is their composition into the whole-connection invariant and the cryptography itself.",
    assumptions=UNBOUNDED_FRAMING_ASSUMPTIONS + ["dec(enc(x)) = x for CBC/stream contexts; AEAD decrypt returns the protected plaintext or raises InvalidTag"],
    trusted_base=["cryptography (AEAD, Cipher, modes)"], bounded=BOUNDED_FRAMING,
-   composition_assumptions=["for CBC / RC4 suites: induction over the record sequence (per-record contracts discharged; AEAD suites: discharged by compose.application_phase)",
-                            "the handshake phase ends in the state the application phase starts from (keys.installed post-state = compose.application_phase pre-state)"],
+   composition_assumptions=["the handshake phase ends in the state the application phase starts from (keys.installed post-state = compose.application_phase pre-state)"],
    not_under_contract=["Decryptor.inflate (compression)", "Session.handle_tls_client_hello (one slice)"])
 
 _p("C02", modules=["quic_session_c", "quic_keystate", "quic_dissector_c", "quic_tls_c", "quic_output", "demux", "quic_pkn", "keys", "quic_varint", "quic_frame", "robustness"], level="other",
